@@ -100,13 +100,14 @@ class MemBlockingControl(BaseBlockingControl):
         with self._lock:
             candidates = list(self._ready)
         for inv_id in candidates:
+            # A maximum of 0 (no free slot) yields nothing, like LIMIT 0 in the SQLite backend
+            if max_num_invocations <= 0:
+                return
             if self.app.orchestrator.get_invocation_status(
                 inv_id
             ).is_available_for_run():
                 max_num_invocations -= 1
                 yield inv_id
-                if max_num_invocations == 0:
-                    return
 
 
 class ArgPair:
